@@ -38,9 +38,14 @@ type Semaphore struct {
 
 // NewSem new a Semaphore
 func NewSem(n uint32) *Semaphore {
+	realCapacity := int64(n)
+	if realCapacity > maxCapacity {
+		realCapacity = maxCapacity
+	}
+
 	s := &Semaphore{
 		sem:          semaphore.NewWeighted(maxCapacity),
-		realCapacity: int64(n),
+		realCapacity: realCapacity,
 	}
 
 	s.sem.Acquire(context.Background(), maxCapacity-s.realCapacity)
